@@ -371,9 +371,44 @@ const (
 	c19Pad       = 3
 )
 
+// c19ArrCount is how many of c19Arrs a tier enumerates: the quick tier the first
+// four (upstream, both roles, skew on each side), the thorough tier also the
+// two lamport-tie arrangements.
+func c19ArrCount() int { return pick(4, len(c19Arrs)) }
+
+// c19FindingMergeLater tags the one finding of the pinned tree the new
+// arrangements expose (replay: harness/briefs/c19-ext-findings/). A paragraph
+// merge (source paragraph tombstoned, its children moved into the target)
+// concurrent with a deletion that covers the whole SOURCE paragraph but not the
+// target, where the MERGE carries the later ticket. The deleting replica has
+// tombstoned the children before the merge moves them; on the merging replica
+// the deletion finds the source already tombstoned by a later ticket
+// (TreeNode.canDelete: LWW lost), the source never enters toBeRemoveds, so
+// propagateMergeDeletes (design doc 6.2) does not reach the moved children and
+// they stay alive: <p>abcdef</p> vs <p>abc</p>. With the deletion's ticket
+// later (upstream's arrangement) the propagation fires and replicas converge.
+const c19FindingMergeLater = "F58"
+
 // c19Known excludes exactly the named cases that fail on the pinned tree for a
-// registered finding (case name -> finding tag), counted as excluded:<tag>.
-var c19Known = map[string]string{}
+// known finding (case name -> finding tag); they are not run and are counted
+// as excluded:<tag>. VERIF_NO_EXCLUSIONS=1 runs them.
+var c19Known = func() map[string]string {
+	known := map[string]string{}
+	// edit-edit, row intersect-element: op 1 = merge of <p>abc</p><p>def</p>
+	// (editor range [0,10)), op 2 deletes/replaces [5,15) = <p>def</p><p>ghi</p>,
+	// in the three arrangements in which op 1 carries the later ticket; every
+	// push order and third-client variant diverges the same way (54 names).
+	for _, op2 := range []string{"replaceText", "replaceElement", "delete"} {
+		for _, arr := range []string{"swapped", "skew-op1", "tie-swapped"} {
+			for order := 0; order < 2; order++ {
+				for _, third := range []string{"third=false", "third=true", "third=true/cut=between"} {
+					known[fmt.Sprintf("edit-edit/intersect-element(merge,%s)/order%d/%s/arr=%s", op2, order, third, arr)] = c19FindingMergeLater
+				}
+			}
+		}
+	}
+	return known
+}()
 
 func (c c19Case) name(ms []matrix) string {
 	m := ms[c.M]
@@ -676,7 +711,8 @@ func TestC19(t *testing.T) {
 	defer col.Flush(true)
 	ms := matrices()
 	sh, n := shard()
-	pairIdx, idx, total, ran := 0, 0, 0, 0
+	narr := c19ArrCount()
+	pairIdx, idx, total, knownTotal := 0, 0, 0, 0
 	thirdCases, thirdSnap, editorSnap, inverted := 0, 0, 0, 0
 	for mi, m := range ms {
 		for ri := range m.ranges {
@@ -686,22 +722,25 @@ func TestC19(t *testing.T) {
 					// every shard runs all variants of its pairs
 					pairIdx++
 					mine := pairIdx%n == sh
-					for arr := range c19Arrs {
+					for arr := 0; arr < narr; arr++ {
 						for order := 0; order < 2; order++ {
 							for _, tv := range c19Thirds {
 								idx++
 								total++
+								c := c19Case{M: mi, R: ri, O1: i1, O2: i2, Order: order, Third: tv.third, Arr: arr, Cut: tv.cut}
+								name := c.name(ms)
+								tag, known := c19Known[name]
+								if known {
+									knownTotal++
+								}
 								if !mine {
 									continue
 								}
-								c := c19Case{M: mi, R: ri, O1: i1, O2: i2, Order: order, Third: tv.third, Arr: arr, Cut: tv.cut}
-								name := c.name(ms)
-								if tag, ok := c19Known[name]; ok && os.Getenv("VERIF_NO_EXCLUSIONS") == "" {
+								if known && os.Getenv("VERIF_NO_EXCLUSIONS") == "" {
 									col.Record(uint64(idx), false, map[string]int{"excluded:" + tag: 1}, nil)
 									continue
 								}
 								fail, obs, hist := runC19(c)
-								ran++
 								cls := map[string]int{"matrix:" + m.name: 1, "arr:" + c19Arrs[arr]: 1, tv.label: 1,
 									fmt.Sprintf("push_first:c%d", order+1): 1}
 								if tv.third {
@@ -762,6 +801,7 @@ func TestC19(t *testing.T) {
 	if sh == 0 {
 		col.SetExtra("matrix_cases_total", total)
 		col.SetExtra("matrix_pairs_total", pairIdx)
+		col.SetExtra("known_finding_cases_total", knownTotal)
 	}
 	col.SetExtra("actor_ids_not_in_activation_order", inverted)
 	// The enumeration is complete (every shard ran its whole residue class);
@@ -774,6 +814,6 @@ func TestC19(t *testing.T) {
 	if editorSnap > 0 {
 		col.Note("C19: an editor was answered with a snapshot in %d cases of shard %d (the arrangement intends editors to pull plain changes)", editorSnap, sh)
 	}
-	col.Note("C19: %d enumerated cases = %d pairs of the five matrices x %d clock arrangements %v x 2 push orders x {no third client, third snapshot-fed client after both pushes, between the pushes}",
-		total, pairIdx, len(c19Arrs), c19Arrs)
+	col.Note("C19: %d enumerated cases = %d pairs of the five matrices x %d clock arrangements %v x 2 push orders x {no third client, third snapshot-fed client after both pushes, between the pushes}; %d of them are the named cases of a known finding (not run, counted as excluded)",
+		total, pairIdx, narr, c19Arrs[:narr], knownTotal)
 }
